@@ -16,7 +16,8 @@ MANIFEST = dict(
          "(through C16's counter theorems). The model is parameterised by facts re-extracted from the source on every run (record slicing arithmetic, the "
          "`self.changes = []` reset, the for-else clear, ack-before-parse, counter kind), so removing the reset or changing a slice changes the Lean term. "
          "Tie: translator facts + differential correspondence of the real long-lived handler objects (async via the real consume task on the virtual loop; "
-         "threaded via stepped dispatch on a real GeckoSpa) + a sequential reference block kept by the harness (search).",
+         "threaded via stepped dispatch on a real GeckoSpa) + a sequential reference block kept by the harness (search)."
+         ' Since session 3: partial updates carry overlapping neighbour records (p, p+-1, p).',
     note="Trusted: Lean kernel, translator, correspondence harness. asyncio: no other task runs between async_handle and async_handled (neither suspends). "
          "Malformed STATP bodies (short records) and observers that raise inside the threaded callback are outside the property's quantifier and the model. "
          "A STATQ arriving at the client is outside the quantifier too (the async handler would then re-apply its last change list).",
